@@ -605,10 +605,12 @@ def random_recs(rng: random.Random, style: str):
         else:  # wild: zero, negative and absurd durations; one month in ~1/6 of the cases has an empty averaging period
             pick = lambda: rng.choice([0.0, DELTA, -rng.uniform(0.1, 30.0), rng.uniform(0.1, 400.0), 11.0 * nd])  # noqa: E731
             dcl, dhl = pick(), pick()
-            if m == zero_room_month:  # exactly empty (ZeroDivisionError branch)
+            if m == zero_room_month:  # exactly empty averaging period (ZeroDivisionError branch)
+                pcl = pcl or 3.0
+                phl = phl or 2.0
                 dcl = rng.choice([0.0, 12.0 * nd, 100.0])
                 dhl = 24.0 * nd - dcl
-            room = 24.0 * nd - dcl - dhl
+            room = 24.0 * nd - (dcl if pcl > 0 else 0.0) - (dhl if phl > 0 else 0.0)
             if room != 0.0 and abs(room) < 1e-3:  # float cancellation, not a modelling question
                 dhl = 7.0
         dayc = rng.randrange(nd)
